@@ -32,17 +32,38 @@ class Exec:
         return [d[1] for d in self.decisions]
 
 
-def default_cost(dec, alt, forced_cost=0):
-    """Cost of taking alternative `alt` (!=0) at decision `dec`."""
-    n, chosen, kind, running_enabled, label = dec
+def cost_class(dec, alt, forced_cost=0):
+    """(class, cost) of taking alternative `alt` (!=0) at decision `dec`.
+
+    classes: 'sched' (preemptions; forced switches cost `forced_cost`),
+             'env'   (environment deviations: faults, short reads, retries),
+             'inject' (placement of an injected cancel / Ctrl-C thread)."""
+    n, chosen, kind, running_enabled, label = dec[:5]
     if alt == 0:
-        return 0
+        return 'sched', 0
     if kind == 'sched':
-        return 1 if running_enabled else forced_cost
-    # env choice
+        inj = dec[5] if len(dec) > 5 else ()
+        if alt in inj:
+            return 'inject', 1
+        return 'sched', (1 if running_enabled else forced_cost)
     if label.startswith('free:'):
-        return 0
-    return 1
+        return 'env', 0
+    return 'env', 1
+
+
+def _norm_bound(bound):
+    if isinstance(bound, dict):
+        return dict(bound)
+    return {'total': bound}
+
+
+def _within(cost, bound):
+    if 'total' in bound:
+        return sum(cost.values()) <= bound['total']
+    for k, v in cost.items():
+        if v > bound.get(k, 0):
+            return False
+    return True
 
 
 class Stats:
@@ -62,6 +83,7 @@ class Stats:
         self.max_threads = 0
         self.counters = {}
         self.maxima = {}
+        self.root_exec = None
 
     def merge(self, o):
         for k, v in o.counters.items():
@@ -98,13 +120,15 @@ class Stats:
 
 
 def explore(run_one, bound, forced_cost=0, max_execs=None, seed=0,
-            max_violations=3, root_prefix=(), deadline=None, keep_samples=2):
+            max_violations=3, root_prefix=(), deadline=None, keep_samples=2,
+            root_cost=None, root_only=False):
     """Enumerate all choice sequences with deviation cost <= bound."""
     st = Stats()
     st.bound = bound
+    bound = _norm_bound(bound)
     t0 = time.time()
-    # stack entries: (prefix, cost_of_prefix)
-    stack = [(list(root_prefix), 0)]
+    # stack entries: (prefix, cost_of_prefix per class)
+    stack = [(list(root_prefix), dict(root_cost or {}))]
     while stack:
         if max_execs is not None and st.executions >= max_execs:
             st.caps_hit.append(f'max_execs={max_execs} (frontier {len(stack)} left)')
@@ -150,6 +174,9 @@ def explore(run_one, bound, forced_cost=0, max_execs=None, seed=0,
             if len(st.violations) >= max_violations:
                 st.caps_hit.append('stopped at first violations')
                 break
+        if root_only:
+            st.root_exec = x
+            break
         # children
         cost = pcost
         ch = x.choices()
@@ -158,15 +185,18 @@ def explore(run_one, bound, forced_cost=0, max_execs=None, seed=0,
             d = x.decisions[i]
             n = d[0]
             for alt in range(1, n):
-                c = cost + default_cost(d, alt, forced_cost)
-                if c <= bound:
+                cls, cc = cost_class(d, alt, forced_cost)
+                c = dict(cost)
+                if cc:
+                    c[cls] = c.get(cls, 0) + cc
+                if _within(c, bound):
                     kids.append((ch[:i] + [alt], c))
             # decisions after the prefix all took the default (cost 0)
         if seed and kids:
             r = seed % len(kids)
             kids = kids[r:] + kids[:r]
         # explore low-cost (fewest deviations) first: sort stable by cost desc
-        kids.sort(key=lambda kc: -kc[1])
+        kids.sort(key=lambda kc: -sum(kc[1].values()))
         stack.extend(kids)
     st.wall = time.time() - t0
     return st
@@ -211,3 +241,17 @@ def run_jobs(fn, jobs, nproc=None, chunksize=1):
 
 def sig_hash(obj):
     return hashlib.sha1(repr(obj).encode()).hexdigest()[:12]
+
+
+def first_level(x, bound, forced_cost):
+    """children of the root execution x: list of (prefix, cost)"""
+    bound = _norm_bound(bound)
+    kids = []
+    ch = x.choices()
+    for i, d in enumerate(x.decisions):
+        for alt in range(1, d[0]):
+            cls, cc = cost_class(d, alt, forced_cost)
+            c = {cls: cc} if cc else {}
+            if _within(c, bound):
+                kids.append((ch[:i] + [alt], c))
+    return kids
